@@ -200,7 +200,7 @@ struct ExecSpec {
     pad: u16,
     /// allowed-memory reach: how the region is registered (0 = one range; 1 = the whole, then a
     /// nested part; 2 = a nested part, then the whole; 3 = two adjacent halves; 4 = the whole twice;
-    /// 5 = two overlapping ranges). Every byte of the region is covered in each case.
+    /// 5 = two overlapping ranges; 6-8 = three to five registrations). Every byte of the region is covered in each case.
     allowed_split: u8,
     /// the adds sit in an eBPF-to-eBPF local function called from main (interpreter and JIT only)
     in_callee: bool,
@@ -854,7 +854,7 @@ fn generate(rng: &mut Rng) -> Scenario {
             1..=4 => 50,
             _ => 0,
         };
-        let allowed_split = if reach == Reach::Allowed && rng.chance(1, 2) { rng.range(1, 5) as u8 } else { 0 };
+        let allowed_split = if reach == Reach::Allowed && rng.chance(1, 2) { rng.range(1, 8) as u8 } else { 0 };
         let in_callee = engine != Engine::Cl && rng.chance(1, 5);
         let helper_first = rng.chance(1, 5);
         let mut loop_step = if loop_n > 1 && adds.len() == 1 && !adds[0].src_is_base && adds[0].from_load.is_none() && aligned(&adds[0]) && rng.chance(1, 2) { rng.range(1, 1 << 20) as u32 } else { 0 };
@@ -1066,6 +1066,10 @@ fn worker(me: usize, spec: &ExecSpec, region: (usize, usize), out: &mut ThreadOu
                         3 => vec![a..a + h, a + h..a + len],
                         4 => vec![a..a + len, a..a + len],
                         5 => vec![a..a + h + 8, a + q..a + len],
+                        // three registrations and more: two disjoint parts, then one range over both
+                        6 => vec![a + 8..a + 16, a + h..a + h + 8, a..a + len],
+                        7 => vec![a..a + q, a + q..a + h, a + h..a + len],
+                        8 => vec![a + q..a + q + 8, a + h + 8..a + h + 16, a + 8..a + len - 8, a..a + 16, a + len - 16..a + len],
                         _ => vec![a..a + len],
                     };
                     for r in ranges {
@@ -1645,7 +1649,7 @@ fn summarise(sc: &Scenario, out: &RunOutput, st: &mut Stats) -> (u64, u64, bool)
             st.inc(&format!("executions_with_{}_instructions_before_the_adds", spec.pad), 1);
         }
         if spec.allowed_split > 0 {
-            st.inc(&format!("allowed_memory_registered_as/{}", ["", "whole_then_nested", "nested_then_whole", "adjacent_halves", "whole_twice", "overlapping"][spec.allowed_split as usize]), 1);
+            st.inc(&format!("allowed_memory_registered_as/{}", ["", "whole_then_nested", "nested_then_whole", "adjacent_halves", "whole_twice", "overlapping", "two_disjoint_then_whole", "three_adjacent", "five_ranges"][spec.allowed_split as usize]), 1);
         }
         for a in &spec.adds {
             if a.from_load.is_some() {
